@@ -144,8 +144,11 @@ def emptied_first(ctx, b, l, depth=0):
     — the one that dominates all others — is a clear(), a move/re-borrow into a local for which the same holds, a
     mem::take whose result is treated so, or a call to a local function whose parameter is treated so.  What such a
     buffer carried over from an earlier call is then never observed (its capacity is not observable)."""
-    if depth > 5:
-        return False
+    if depth > 5 or l == 0:
+        return False            # the return place: the value leaves the function
+    ty = b.local_ty(l)
+    if not any(k in ty for k in ('std::vec::Vec<', 'std::string::String', 'VecDeque<')):
+        return False            # only a growable buffer can be "emptied"
     an = ctx.an(b)
     cfg = an.cfg
     uses = [(bi, i, n) for bi, i, n in _uses_of(b, l) if bi in cfg.reach]
